@@ -11,7 +11,8 @@ CONSTANTS
   Pads = {0, 2}
   Props = {0}
   CtlFroms = {}
-  CtlSizes = {1}
+  MemSizes = {1}
+  LockBits = {}
   CtlTypes = {2}
   TwoCtl = FALSE
   OldLens = {1, 5}
